@@ -345,6 +345,85 @@ pub fn g3(seed: u64, kind: Kind, l: &mut Local) {
     }
 }
 
+/// G4: state while a registration is probing. Unrelated questions (nothing in them is cached) or
+/// polling API calls wake the daemon again and again; the timers and retransmissions it holds at the
+/// end of the probing second must be what the registrations need, whatever the number of wake-ups.
+pub fn probing_flood(seed: u64, l: &mut Local) {
+    let run = |volume: u64| -> Option<(usize, usize, String)> {
+        let mut rng = Rng::new(seed);
+        let mut w = World::new(seed);
+        w.set_stepping(Stepping::Lazy);
+        let dual = rng.chance(1, 2);
+        let h = w.add_host_with(if dual { scen::single_dual() } else { scen::single_v4() }, |g| g.jitter_const = Some(20));
+        w.set_ip_check_interval(h, 3600);
+        let services = 1 + rng.usize(3);
+        let by_api = rng.chance(1, 3);
+        let contested = rng.chance(1, 3);
+        let t0 = w.now();
+        for i in 0..services {
+            let addrs: Vec<std::net::IpAddr> = if dual { vec!["10.0.0.5".parse().unwrap(), "fe80::5".parse().unwrap()] } else { vec!["10.0.0.5".parse().unwrap()] };
+            w.register(h, World::reg_info("_mine._tcp.local.", &format!("mine{i}"), &format!("minehost{i}.local."), &addrs, 81 + i as u16, &[("a", Some(b"1"))]));
+        }
+        // a window in which the names are certainly still being probed: the first 700 ms; with a rival that
+        // keeps winning the comparison for one of the names, several seconds
+        let window = if contested { 3500 } else { 700 };
+        let n = (25 + rng.below(25)) * volume;
+        let gap = (window / n).max(1);
+        let mut sent = 0;
+        while w.now() < t0 + window && sent < n {
+            if contested && sent % (n / 4).max(1) == 0 {
+                // the rival's probe: later data for the first instance name (it wins, we wait a second and probe again)
+                let inst = scen::wire_name("mine0._mine._tcp.local.");
+                let mut q = Message::query();
+                q.questions.push(wire::question(&inst, wire::T_ANY));
+                q.authorities.push(wire::srv(&inst, 120, 65000, &scen::wire_name("zz-rival.local.")));
+                w.inject_msg(h, 2, scen::peer4(71), &q);
+            }
+            if by_api {
+                w.get_metrics(h);
+            } else {
+                let mut q = Message::query();
+                q.questions.push(wire::question(&scen::wire_name(&format!("nobody{sent}._else._udp.local.")), wire::T_PTR));
+                w.inject_msg(h, 2, scen::peer4(70), &q);
+            }
+            sent += 1;
+            w.run_for(gap);
+        }
+        w.run_until(t0 + window);
+        let snap = w.snapshot(h)?;
+        if w.trace.deaths().next().is_some() {
+            return None;
+        }
+        let still_probing = !snap.probes.is_empty();
+        if !still_probing {
+            return None;
+        }
+        Some((snap.timers_len, snap.retransmissions.len(), format!("services={services} dual={dual} wake-ups={} by {} over {window} ms contested={contested}", sent, if by_api { "get_metrics calls" } else { "unrelated questions" })))
+    };
+    let (Some(a), Some(b)) = (run(1), run(4)) else { return };
+    l.evaluations += 2;
+    l.act("G4");
+    l.distinct.insert(util::fnv_str(&a.2));
+    let grew = |x: usize, y: usize| y > x + 6 && y > 2 * x;
+    let which = if grew(a.0, b.0) {
+        Some("timers")
+    } else if grew(a.1, b.1) {
+        Some("retransmissions")
+    } else {
+        None
+    };
+    if let Some(which) = which {
+        l.violate(
+            Violation::new(
+                "G3",
+                format!("G3/state-grows-with-traffic/{which}/while-probing"),
+                format!("while the registrations were still probing, 4x the wake-ups left timers {} -> {}, retransmissions {} -> {}", a.0, b.0, a.1, b.1),
+            )
+            .with(json!({"scenario_1x": a.2, "scenario_4x": b.2})),
+        );
+    }
+}
+
 const KINDS: [Kind; 7] = [Kind::ForeignType, Kind::Orphans, Kind::Nsec, Kind::BrowsedChurn, Kind::Reannounce, Kind::GhostPtrs, Kind::Mixed];
 
 pub fn run_one(seed: u64, i: u64, l: &mut Local) {
@@ -382,15 +461,19 @@ pub fn run(report: &Report, tier: &Tier) {
         "traffic scenarios: 40..100 (x1..x4) packets, 20..220 ms apart, of one kind or mixed: announcements of a type nobody browses, SRV/TXT/ \
          address records without PTR, NSEC records, instances of the browsed type that come and go (with subtypes, goodbyes), PTR-only instances that never resolve, endless \
          re-announcements of one instance; TTLs up to {2,10,60,120} s; with/without browse, hostname search, own registration, accept_unsolicited; \
-         G1 after stopping every search and waiting max TTL + 3 s, G2 at a checkpoint every 25 packets, G3 pairs 1x/4x; distinct by scenario description",
+         G1 after stopping every search and waiting max TTL + 3 s, G2 at a checkpoint every 25 packets, G3 pairs 1x/4x; G4: 1..3 registrations still probing (sometimes kept probing by a rival that wins the comparison) while 25..50 (x1 / x4) unrelated questions or get_metrics calls wake the daemon: timers and retransmissions compared 1x/4x; distinct by scenario description",
     );
     report.assume("G2 allowance: 2 x (records the model relates to the open searches) + 8; G3 flags growth by more than 2x and more than 6");
-    for r in ["G1", "G1-keys", "G1-timers", "G2", "G3"] {
+    for r in ["G1", "G1-keys", "G1-timers", "G2", "G3", "G4"] {
         report.floor(r, 20);
     }
     let seed = report.seed;
     let n: u64 = if tier.thorough { 40_000 } else { 900 };
-    run_parallel(report, n, threads(), tier.budget_s, |i, l| {
+    run_parallel(report, n, threads(), tier.budget_s * 0.9, |i, l| {
         run_one(util::mix(seed, 0xC20_0000 + i), i, l);
+    });
+    let n4: u64 = if tier.thorough { 20_000 } else { 400 };
+    run_parallel(report, n4, threads(), tier.budget_s * 0.1, |i, l| {
+        probing_flood(util::mix(seed, 0xC20_9000 + i), l);
     });
 }
